@@ -150,6 +150,10 @@ def nontrivial(lines, lh):
     return len(ops) >= 4 and any('] [' in l.split(']]')[0] for l in lh if '[[' in l)
 
 
+def tval(cls, tag):
+    return tag
+
+
 def run(ctx):
     ctx.cov['trusted_base'] += ['extraction: ExtrOcamlBasic only; harness/driver.ml; harness/h_tree.cpp (9 layer classes incl. DNS, Dot11Data; Packet wrapper)',
                                 'object identities are model-only; in C++ aliasing/leaks/double frees are observed by address comparison, ASan and LSan (not proved about the allocator)']
@@ -169,8 +173,75 @@ def run(ctx):
     for i in range(n2):
         batch.append(gen_sameclass(rng, 's%d' % i, rng.choice([6, 12, 20])))
     stats = C.differential(ctx, 'tree', 'h_tree', batch, oracle, cmp=cmp, keep_first=0, nontrivial=nontrivial, runner_ok=runner_ok)
+    # ---- copies taken from INNER layers (clone() / copy constructor of a layer that has a parent): a fresh root, parent link
+    #      none, the layer's own chain -- judged by a Python reference of mk / div / subclone / subcopy / tag (outside the Coq model)
+    subs = []
+    for i in range(300 if quick else 6000):
+        lines, forest = [], {}
+        for v in range(rng.randrange(2, 5)):
+            cls, tag = rng.randrange(9), rng.randrange(1, 60000)
+            lines.append('mk %d %d %d' % (v, cls, tag)); forest[v] = [[cls, tag]]
+        exp = [dict((k, [list(x) for x in ch]) for k, ch in forest.items())]
+        for _ in range(rng.randrange(2, 9)):
+            r = rng.random()
+            live = sorted(forest)
+            free = [v for v in range(8) if v not in forest]
+            if r < 0.45:
+                a_, b_ = rng.choice(live), rng.choice(live)
+                if len(forest[a_]) + len(forest[b_]) > 12:
+                    continue
+                lines.append('div %d %d' % (a_, b_)); forest[a_] = forest[a_] + [list(x) for x in forest[b_]]
+            elif r < 0.85 and free:
+                b_ = rng.choice(live); d = rng.randrange(0, len(forest[b_])); a_ = rng.choice(free)
+                if forest[b_][d][0] == 0 and d == 0 and False:
+                    continue
+                lines.append('%s %d %d %d' % (rng.choice(['subclone', 'subcopy']), a_, b_, d)); forest[a_] = [list(x) for x in forest[b_][d:]]
+            else:
+                a_ = rng.choice(live); d = rng.randrange(0, len(forest[a_])); val = rng.randrange(1, 60000)
+                lines.append('tag %d %d %d' % (a_, d, val)); forest[a_][d][1] = val
+            exp.append(dict((k, [list(x) for x in ch]) for k, ch in forest.items()))
+        subs.append(('u%d' % i, lines, exp))
+    uh = C.run_harness('h_tree', [(sid, lines) for sid, lines, _ in subs])
+    ctx.cov['evaluations'] += len(subs)
+    sub_bad = 0
+    for sid, lines, exp in subs:
+        lh = [l for l in uh.get(sid, []) if not l.startswith('!~')]
+        want = []
+        nmk = sum(1 for l in lines if l.startswith('mk '))
+        states = [None] * (nmk - 1) + exp          # the forest after the last mk, then after every further op
+        bad = None
+        crash = [l for l in lh if l.startswith('!!')]
+        if crash:
+            bad = crash[0]
+        else:
+            for j, st in enumerate(states):
+                if st is None:
+                    continue
+                w = '[' + ' '.join('[%d [%s]]' % (v, ' '.join('[%d %d 1]' % (c, tval(c, t)) for c, t in st[v])) for v in sorted(st)) + ']'
+                g = lh[j] if j < len(lh) else '<missing>'
+                if g != w:
+                    bad = 'after "%s": the forest is %s, a deep copy rooted at the copied layer gives %s' % (lines[j], g[:160], w[:160])
+                    break
+        if bad:
+            sub_bad += 1
+            if sub_bad <= 2:
+                ctx.violation(bad[:300], '=== replay\n' + '\n'.join(lines) + '\n--- ' + bad + '\n--- C++ output\n' + '\n'.join(lh) + '\n')
+    # ---- the caching wrapper with a child of its own: clone() must be deep (harness h_pkt: newc / push / raw / clone) ----
+    C.build_harness('h_pkt')
+    cs = []
+    for i, k in enumerate(['UDP', 'TCP', 'IP', 'ICMP', 'EthernetII'] * (2 if quick else 20)):
+        tail = rng.choice([['raw x' + bytes(rng.randrange(256) for _ in range(rng.randrange(1, 20))).hex()], ['push UDP', 'raw x0102'], ['push IP', 'push UDP']])
+        cs.append(('k%d' % i, ['newc ' + k] + tail + ['clone']))
+    kh = C.run_harness('h_pkt', cs)
+    ctx.cov['evaluations'] += len(cs)
+    for sid, lines in cs:
+        lh = [l for l in kh.get(sid, []) if not l.startswith('!~')]
+        if any(l.startswith('!!') for l in lh) or not lh or lh[-1].strip() != 'C 1':
+            ctx.violation('PDUCacher with layers stacked on it: clone() is not equal to its source (%s)' % (lh[-1] if lh else '<none>')[:80],
+                          '=== replay (harness h_pkt)\n' + '\n'.join(lines) + '\n--- C++ output\n' + '\n'.join(l[:300] for l in lh) + '\n')
+            break
     ctx.cov['rule'] = ('random programs over 18 operations on a pool of 8 objects (9 layer classes) and 4 Packet wrappers, plus programs biased to copy/move '
-                       'assignment between chains of different lengths with the same head class; non-trivial = distinct program using >=4 operation kinds that builds a multi-layer chain')
+                       'assignment between chains of different lengths with the same head class; copies taken from inner layers (subclone/subcopy) and clones of a PDUCacher with stacked layers are judged by a Python reference only (not operations of the Coq model); non-trivial = distinct program using >=4 operation kinds that builds a multi-layer chain')
     ctx.cov['samples'] = [batch[0][1][:10], batch[n1][1][:10]]
     ctx.notes['stats'] = stats
     C.obligations_failed(ctx, ok, why, 'theorems of Properties/C12.v no longer check')
